@@ -163,3 +163,16 @@ _p(
     uncovered=["Monte-Carlo bands for softmax, attention, cross-entropy with random logits, layer_norm / rms_norm: statements about expectations of transcendental functions of high-dimensional Gaussians; no contract on a function within reach expresses them (a sampling check would be a different technique)"],
     explanation="PROVED (z3, all mult > 0, all widths): logarithmic_interpolation(alpha, lo, hi) lies between lo and hi for alpha in [0,1] and equals them at the end points; every empirical scale of gelu / silu / silu_glu / softmax (output and input-gradient) lies between its flat and its sharp limit; the cross-entropy logit-gradient scale is V/sqrt(V-1) and gives RMS exactly 1 for uniform logits for every V >= 2; norm gain/bias gradient scales are one-term-per-row (shared with C03). BOUNDED: the 7% bands of the elementwise ops (quadrature). NOT COVERED: the Monte-Carlo bands.",
 )
+
+FX = ["pyvc/fxmodel.py: assumed contracts of the torch.fx graph API (validated at run time: group fx)"]
+_p(
+    "C15",
+    level="other",
+    technique="contract-based deductive verification at function level (straight-through estimators, wrappers, format round trip, argument splice over every call shape, one generic iteration of the backend loop, lossless identity bit-precise); the whole-graph clause by a bounded stand-in; TorchDynamo's graph capture assumed",
+    trusted_base=SMT + BITP + FX + ["contract of FPFormat.quantise in the value algebra: an uninterpreted function of the tensor and of the four format fields (bit-level meaning: C13/C14)", "bounded/c15_graphs.py (bounded stand-in, not proof)"],
+    assumptions=[A2, A7, "A5: TorchDynamo presents the module's operations as call_function nodes with the targets of the replacement map and builds a callable equal to the graph (trusted, not validated)", "Function.apply contract (A2) for the local autograd.Function classes of quantise_fwd / quantise_bwd"],
+    components=[comp.validators(["fx", "bits"]), comp.script("c15-fx-graphs", "BOUNDED stand-in", ["{ROOT}/bounded/c15_graphs.py"])],
+    bounded=["whole-graph rewrite: real backend on all hand-built fx programs of <= 2 (quick) / <= 4 (thorough, sampled 400) call nodes over {F.linear, U.linear, F.sdpa, U.sdpa, relu, add} x {E4M3/E5M2 nearest, lossless E8M23}, compared bit for bit (outputs and gradients) with hand-inserted quantise_fwd/quantise_bwd"],
+    uncovered=["the real TorchDynamo path (graph capture, guards, caching) is assumed, not checked"],
+    explanation="PROVED: quantise_fwd == (value Q_self(x), gradient unchanged) and quantise_bwd == (value unchanged, gradient Q_self(g)) from the real local autograd.Function classes; tuple_to_format(format_to_tuple(f)) == f on all four fields; each of the four wrappers == OP on the forward-quantised tensor operands (bias / mask / scalars untouched) with the output gradient quantised to bwd, using exactly the caller's formats; the argument splice binds every original parameter to its original value and the two format parameters to the caller's formats for the enumerated call shapes (failing shapes: known finding F4b); the backend replaces a matching node in place (order, positional and keyword users) and leaves every other node untouched (one generic iteration); simulate_fp8 is the E4M3 / E5M2 instance; a lossless format is the identity bit for bit for all |x| < 2^126 and every random draw. BOUNDED: the whole-graph comparison.",
+)
